@@ -49,6 +49,7 @@ Proof.
   - (* known answers *) intros r s now HR. destruct (R_fields _ _ HR) as (Ht & Hc & _ & _ & Htb & Hcb).
     split; [|eexists; reflexivity].
     eexists. apply ka_ttl_trec_ok; [rewrite Hc | rewrite Ht]; assumption.
+  - (* ttl *) intros r s HR. destruct (R_fields _ _ HR) as (Ht & _). exact Ht.
 Qed.
 
 (* For every history of loop iterations with clock values below 2^63 and wire TTLs below 2^32:
@@ -70,6 +71,7 @@ Lemma no_search_no_queries c now nsb nsh recs c' o :
   sim_iter trec trec_ops (mkCfg None None) c now nsb nsh recs = Ok (c', o) -> io_queries o = [].
 Proof.
   unfold sim_iter. simpl. intros H.
-  destruct (ingest trec trec_ops c now recs); simpl in H; try discriminate.
+  destruct (ingest trec trec_ops c now recs) as [a| | |]; simpl in H; try discriminate.
+  destruct (evict_services trec trec_ops a now None) as [c3 rs].
   inversion H; subst. reflexivity.
 Qed.
